@@ -58,18 +58,21 @@ func (p *PubSub) handleNewStream(s network.Stream) {
 	sentNewStream := false
 
 	defer func() {
-		p.inboundStreamsMx.Lock()
-		if p.inboundStreams[peer].s == s {
-			delete(p.inboundStreams, peer)
-		}
-		p.inboundStreamsMx.Unlock()
-
+		// Report the closed stream BEFORE giving up the slot: a replacement stream
+		// that arrives meanwhile then finds this handler as its predecessor and waits
+		// for done, so its hello cannot be overtaken (and wiped) by our ClosedStream.
 		if sentNewStream {
 			select {
 			case p.incoming <- incomingUnion{kind: incomingKindClosedStream, s: s}:
 			case <-p.ctx.Done():
 			}
 		}
+
+		p.inboundStreamsMx.Lock()
+		if p.inboundStreams[peer].s == s {
+			delete(p.inboundStreams, peer)
+		}
+		p.inboundStreamsMx.Unlock()
 
 		close(done)
 	}()
